@@ -23,8 +23,8 @@ ASSUMPTIONS = [
     "lists are used with the condition/action family of their own type; a regex list has one member (other uses are outside the domain)",
     "reference readers of the three vendors' policy / list syntaxes are in this module (namespaces per list kind)",
 ]
-FLOORS = {"quick": {"generator_runs": 2000, "policy_runs": 500, "refs_checked": 1000, "constructs_rejected": 100, "actions_segmented": 1000},
-          "thorough": {"generator_runs": 100000, "policy_runs": 25000, "refs_checked": 50000, "constructs_rejected": 5000, "actions_segmented": 50000}}
+FLOORS = {"quick": {"generator_runs": 2000, "policy_runs": 500, "refs_checked": 1000, "constructs_rejected": 100, "actions_segmented": 1000, "combined_operation_actions": 100},
+          "thorough": {"generator_runs": 100000, "policy_runs": 25000, "refs_checked": 50000, "constructs_rejected": 5000, "actions_segmented": 50000, "combined_operation_actions": 5000}}
 VENDORS = ["huawei", "arista", "cumulus"]
 MODELS = {"huawei": ("Huawei CE6870-48S6CQ-EI", "VRP V200R001C00SPC700"), "arista": ("Arista DCS-7368", "EOS 4.29.9.1M"),
           "cumulus": ("Mellanox SN3700-VS2RO", "Cumulus Linux 5.4.0")}
@@ -427,7 +427,24 @@ def check_case(seed, acc):
         donor = gen_program(rng, ents)
         st = rng.choice(rng.choice(program)["stmts"])
         dst = rng.choice(rng.choice(donor)["stmts"])
-        if dst["acts"] and rng.random() < 0.7:
+        crng = random.Random(seed ^ 0xC0B0)
+        if crng.random() < 0.3:
+            # one action combining several operations of one attribute (the builder keeps both only in this call order):
+            # back-ends that cannot express the combination must refuse it before the first line
+            def cn(t, k=1):
+                pool = [c["name"] for c in ents["comms"] if c["type"] in t]
+                return crng.sample(pool, min(k, len(pool)))
+            fam, t = crng.choice([("community", ["BASIC"]), ("large_community", ["LARGE"]), ("extcommunity", ["RT", "SOO"]), ("extcommunity_rt", ["RT"]), ("extcommunity_soo", ["SOO"])])
+            a = crng.choice([
+                ["aspath", [["set", [65001]], ["prepend", [65002]]]], ["aspath", [["set", [65001, 65002]], ["expand", [65003]]]],
+                ["aspath", [["set", [65001]], ["delete", [65002]]]], ["aspath", [["set", [65001]], ["expand_last_as", [65002]]]],
+                ["aspath", [["prepend", [65001]], ["delete", [65002]]]], ["aspath", [["prepend", [65001]], ["expand", [65002]]]],
+                ["aspath", [["prepend", [65001]], ["expand_last_as", [65002]]]], ["aspath", [["delete", [65001]], ["expand", [65002]]]],
+                ["comm", fam, [["set", cn(t)], ["add", cn(t)]]], ["comm", fam, [["set", cn(t)], ["remove", cn(t)]]], ["comm", fam, [["add", cn(t)], ["remove", cn(t)]]],
+            ])
+            st["acts"] = [x_ for x_ in st["acts"] if x_[0] != a[0] or (a[0] in ("comm",) and x_[1] != a[1])] + [a]
+            acc.count("combined_operation_actions")
+        elif dst["acts"] and rng.random() < 0.7:
             a = rng.choice(dst["acts"])
             st["acts"] = [x_ for x_ in st["acts"] if x_[0] != a[0] or (a[0] in ("comm",) and x_[1] != a[1])] + [a]
         elif dst["conds"]:
